@@ -2,6 +2,7 @@ package checks
 
 import (
 	"fmt"
+	"strconv"
 	"strings"
 	"testing"
 
@@ -38,6 +39,19 @@ func c16StringProducers(s string) []c16Producer {
 		{name: "parameter", expr: strLit(s), param: true},
 		{name: "assigned-property", setup: bn.KwVar + " holder = {}; holder.w = " + strLit(s) + ";", expr: "holder.w"},
 		{name: "variable", setup: bn.KwVar + " held = " + strLit(s) + ";", expr: "held"},
+	}
+	// the same string as an element of an array, a value of an object, that built-ins have looked at (length,
+	// copies, listings; min/max where every element is numeric-looking, so that the call succeeds)
+	ps = append(ps, c16Producer{name: "element-after-builtins", setup: bn.KwVar + " seen = [" + strLit(s) + ", \"z\"]; " + bn.BLen + "(seen); " + bn.BPush + "(seen, 1); " + bn.BRemove + "(seen, 1); " + bn.KwVar + " so = {w: " + strLit(s) + "}; " + bn.BKeys + "(so); " + bn.BValues + "(so);", expr: "seen[0]"},
+		c16Producer{name: "value-after-listing", setup: bn.KwVar + " so = {w: " + strLit(s) + "}; " + bn.BKeys + "(so); " + bn.BValues + "(so); " + bn.BLen + "(" + bn.BValues + "(so));", expr: "so.w"},
+		c16Producer{name: "listed-value", expr: bn.BValues + "({w: " + strLit(s) + "})[0]"})
+	if _, err := strconv.ParseFloat(strings.Map(func(r rune) rune {
+		if r >= 0x09e6 && r <= 0x09ef {
+			return r - 0x09e6 + '0'
+		}
+		return r
+	}, s), 64); err == nil && s != "nan" {
+		ps = append(ps, c16Producer{name: "element-after-minmax", setup: bn.KwVar + " seen = [" + strLit(s) + ", \"0\"]; " + bn.BMax + "(seen); " + bn.BMin + "(seen);", expr: "seen[0]"})
 	}
 	if strings.TrimSpace(s) == s {
 		ps = append(ps, c16Producer{name: "input", setup: bn.KwVar + " typed = " + bn.BInput + "();", expr: "typed", stdin: s + "\n"})
@@ -206,10 +220,12 @@ func TestC16(t *testing.T) {
 					{name: "logical-or-result", expr: "(0 " + bn.KwOr + " " + e + ")"},
 					{name: "logical-and-result", expr: "(1 " + bn.KwAnd + " " + e + ")"},
 					{name: "grouped", expr: "((" + e + "))"},
+					{name: "element-after-builtins", setup: bn.KwVar + " seen = [" + e + ", 0]; " + bn.BMax + "(seen); " + bn.BMin + "(seen); " + bn.BLen + "(seen); " + bn.BPush + "(seen, 1); " + bn.KwVar + " so = {w: " + e + "}; " + bn.BValues + "(so);", expr: "seen[0]"},
+					{name: "value-after-listing", setup: bn.KwVar + " so = {w: " + e + "}; " + bn.BValues + "(so); " + bn.BKeys + "(so);", expr: "so.w"},
 				}
 				c.c16Group(s, "exact-integers", e, ps, contexts, &k)
 			}
-			c.Ev.MarkExhaustive(fmt.Sprintf("%d contexts x 5 exact 64-bit integers x 23 access paths against the directly computed value", len(contexts)))
+			c.Ev.MarkExhaustive(fmt.Sprintf("%d contexts x 5 exact 64-bit integers x 25 access paths against the directly computed value", len(contexts)))
 		})
 		c.Sub("numbers", func(s *Sub) {
 			var k int64
@@ -230,6 +246,7 @@ func TestC16(t *testing.T) {
 					c16Producer{name: "element-update", setup: bn.KwVar + " cell = [" + lit + " - 1]; cell[0] = cell[0] + 1;", expr: "cell[0]"},
 					c16Producer{name: "recursion-result", setup: bn.KwFun + " up(k) { " + bn.KwIf + " (k == 0) " + bn.KwReturn + " " + lit + " - 3; " + bn.KwReturn + " up(k - 1) + 1; }", expr: "up(3)"},
 				)
+				ps = append(ps, c16Producer{name: "element-after-builtins", setup: bn.KwVar + " seen = [" + lit + ", 0]; " + bn.BMax + "(seen); " + bn.BMin + "(seen); " + bn.BLen + "(seen); " + bn.BPush + "(seen, 1); " + bn.BRemove + "(seen, 0);", expr: "seen[0]"})
 				ps = append(ps, c16Producer{name: "parameter", expr: n.exprs[0], param: true},
 					c16Producer{name: "function-result", setup: bn.KwFun + " mkv() { " + bn.KwReturn + " " + n.exprs[len(n.exprs)/2] + "; }", expr: "mkv()"},
 					c16Producer{name: "variable-of-bitwise", setup: bn.KwVar + " held = " + n.exprs[2] + ";", expr: "held"})
